@@ -30,6 +30,7 @@ import (
 	"strings"
 	"sync"
 	"syscall"
+	"time"
 	"unsafe"
 
 	"github.com/opencontainers/go-digest"
@@ -60,8 +61,26 @@ type Node struct {
 }
 
 type Item struct {
-	Name string `json:"name"` // hex; the name given to Store.Add, relative
-	Tree *Node  `json:"tree"`
+	Name    string `json:"name"` // hex; the name given to Store.Add, relative
+	Tree    *Node  `json:"tree"`
+	ViaLink bool   `json:"viaLink,omitempty"` // the added path is a symbolic link to the file or directory
+	Path    string `json:"path,omitempty"`    // hex; non-empty: the path argument of Add (relative to the working directory, or "/" + that for absolute)
+}
+
+// srcPath is where the item lives below the source working directory, addArg the path argument of Add.
+func (it Item) srcPath() string {
+	if it.Path == "" {
+		return unhx(it.Name)
+	}
+	return strings.TrimPrefix(unhx(it.Path), "/")
+}
+
+func (it Item) addArg(workdir string) string {
+	p := unhx(it.Path)
+	if strings.HasPrefix(p, "/") {
+		return filepath.Join(workdir, p[1:])
+	}
+	return p
 }
 
 type Scenario struct {
@@ -76,6 +95,7 @@ type Scenario struct {
 	Via          string `json:"via"` // memory | oci
 	Tamper       bool   `json:"tamper"`
 	ReproPair    bool   `json:"reproPair"`
+	Foreign      uint64 `json:"foreign,omitempty"` // != 0: also push a re-ordered archive of the first directory (seed)
 }
 
 func hx(s string) string   { return hex.EncodeToString([]byte(s)) }
@@ -338,6 +358,15 @@ func genScenario(r *common.Rand, idx int) *Scenario {
 	sc.Via = common.Pick(r, []string{"memory", "oci", "memory", "oci", "remote"})
 	sc.Tamper = r.Chance(1, 3)
 	sc.ReproPair = r.Chance(1, 2)
+	if r.Chance(1, 3) {
+		sc.Foreign = 1 + r.U64()%1000000
+	}
+	if idx < 240 {
+		// the first scenarios walk through every intermediate store x SkipUnpack x ForceCAS x IgnoreNoName
+		sc.Via = []string{"memory", "oci", "remote"}[idx%3]
+		bits := (idx / 3) % 8
+		sc.SkipUnpack, sc.ForceCAS, sc.IgnoreNoName = bits&1 != 0, bits&2 != 0, bits&4 != 0
+	}
 	big := idx%16 == 3
 	bad := r.Chance(1, 7)
 	nItems := 1 + r.Intn(4)
@@ -350,7 +379,13 @@ func genScenario(r *common.Rand, idx int) *Scenario {
 			if r.Chance(1, 10) {
 				nm = strings.Repeat("p", 90+r.Intn(100)) + "/" + nm
 			}
-			top := strings.Split(nm, "/")[0]
+			if r.Chance(1, 12) { // names that Add and push clean on their own
+				nm = common.Pick(r, []string{"./", "", ""}) + nm + common.Pick(r, []string{"/", "", "/."})
+				if r.Bool() {
+					nm = strings.Replace(nm, "/", "//", 1)
+				}
+			}
+			top := strings.Split(filepath.ToSlash(filepath.Clean(nm)), "/")[0]
 			if !used[top] {
 				used[top] = true
 				break
@@ -370,7 +405,11 @@ func genScenario(r *common.Rand, idx int) *Scenario {
 			t = genTree(r, big, bad)
 		}
 		trees = append(trees, t)
-		sc.Items = append(sc.Items, Item{Name: hx(nm), Tree: t})
+		it := Item{Name: hx(nm), Tree: t, ViaLink: r.Chance(1, 8)}
+		if r.Chance(1, 6) { // the content lives elsewhere than under its name
+			it.Path = hx(common.Pick(r, []string{"", "/"}) + fmt.Sprintf("_elsewhere/%d/x", i))
+		}
+		sc.Items = append(sc.Items, it)
 	}
 	return sc
 }
@@ -455,6 +494,17 @@ func materialise(path string, n *Node, second bool) error {
 		}
 	}
 	return lutimes(path, mt)
+}
+
+// materialiseItem puts the item's tree at path, or next to it with a symbolic link at path.
+func materialiseItem(path string, it Item, second bool) error {
+	if !it.ViaLink {
+		return materialise(path, it.Tree, second)
+	}
+	if err := materialise(path+".real", it.Tree, second); err != nil {
+		return err
+	}
+	return os.Symlink(filepath.Base(path)+".real", path)
 }
 
 func special(m uint32) os.FileMode {
@@ -818,12 +868,21 @@ func runScenario(sc *Scenario) {
 	umask := uint32(sc.Umask)
 
 	for _, it := range sc.Items {
-		p := filepath.Join(src, unhx(it.Name))
+		p := filepath.Join(src, it.srcPath())
 		if err := os.MkdirAll(filepath.Dir(p), 0o755); err != nil {
 			panic(err)
 		}
-		if err := materialise(p, it.Tree, false); err != nil {
+		if it.Path != "" {
+			run.Count("item-path-differs-from-name")
+		}
+		if n := unhx(it.Name); n != filepath.Clean(n) {
+			run.Count("item-name-unclean")
+		}
+		if err := materialiseItem(p, it, false); err != nil {
 			panic(fmt.Sprintf("materialise: %v", err))
+		}
+		if it.ViaLink {
+			run.Count("item-added-via-symlink")
 		}
 	}
 
@@ -837,13 +896,14 @@ func runScenario(sc *Scenario) {
 	run.Count("via=" + sc.Via)
 	run.Count(fmt.Sprintf("opts repro=%d preserve=%d skipUnpack=%d forceCAS=%d ignoreNoName=%d", b2i(sc.Repro), b2i(sc.Preserve), b2i(sc.SkipUnpack), b2i(sc.ForceCAS), b2i(sc.IgnoreNoName)))
 	run.Count(fmt.Sprintf("umask=%03o", sc.Umask))
+	run.Count(fmt.Sprintf("matrix via=%s skipUnpack=%d forceCAS=%d ignoreNoName=%d", sc.Via, b2i(sc.SkipUnpack), b2i(sc.ForceCAS), b2i(sc.IgnoreNoName)))
 
 	// ---- Add + descriptor clause
 	var descs []ocispec.Descriptor
 	blobs := map[int][]byte{}
 	for i, it := range sc.Items {
 		name := unhx(it.Name)
-		d, err := s1.Add(ctx, name, "", "")
+		d, err := s1.Add(ctx, name, "", it.addArg(src))
 		if err != nil {
 			fail(scid, "add-failed", fmt.Sprintf("Add(%q): %v", name, err))
 			return
@@ -917,6 +977,10 @@ func runScenario(sc *Scenario) {
 		})
 		run.Count(fmt.Sprintf("tree-nodes~%d", (nodes/8)*8))
 		// every header must carry the generator's data (independent of the model)
+		if it.ViaLink && len(ents) == 1 && ents[0].typ == "l" {
+			fail(id, "added-symlink-archived-as-link", fmt.Sprintf("Add(%q): the path is a symbolic link to a directory and the archive holds only that link (-> %q), not the directory", name, common.UnHex(ents[0].payload)))
+			continue
+		}
 		exp := expectTree(it.Tree, 0, true)
 		seen := map[string]bool{}
 		cleanName := filepath.ToSlash(filepath.Clean(name))
@@ -969,14 +1033,14 @@ func runScenario(sc *Scenario) {
 				continue
 			}
 			name := unhx(it.Name)
-			p := filepath.Join(src2, name)
+			p := filepath.Join(src2, it.srcPath())
 			os.MkdirAll(filepath.Dir(p), 0o755)
-			if err := materialise(p, it.Tree, true); err != nil {
+			if err := materialiseItem(p, it, true); err != nil {
 				panic(err)
 			}
 			s1b, _ := file.New(src2)
 			s1b.TarReproducible = sc.Repro
-			d2, err := s1b.Add(ctx, name, "", "")
+			d2, err := s1b.Add(ctx, name, "", it.addArg(src2))
 			s1b.Close()
 			if err != nil {
 				fail(scid, "add-failed", fmt.Sprintf("second Add(%q): %v", name, err))
@@ -999,10 +1063,19 @@ func runScenario(sc *Scenario) {
 				run.Nontrivial("P " + string(d1.Digest))
 			}
 			os.RemoveAll(p)
+			os.RemoveAll(p + ".real")
 		}
 	}
 
 	// ---- unpack verification clause
+	if sc.Foreign != 0 {
+		for _, it := range sc.Items {
+			if it.Tree.Kind == "d" {
+				foreignCase(ctx, sc, tail, work, it)
+				break
+			}
+		}
+	}
 	if sc.Tamper {
 		for i, it := range sc.Items {
 			if it.Tree.Kind != "d" {
@@ -1073,7 +1146,18 @@ func runScenario(sc *Scenario) {
 	if cerr != nil {
 		run.Count("copy-in=" + strings.SplitN(errClass(cerr), ":", 2)[0])
 		if allBenign {
-			fail(scid, "copy-in-failed", cerr.Error())
+			// the restore did not complete (as opposed to "restored differently": path-missing, kind,
+			// file-bytes, link-target, mode, path-extra below)
+			sig := "restore-failed-other"
+			switch msg := cerr.Error(); {
+			case strings.Contains(msg, "mismatch"):
+				sig = "restore-failed-verify" // digest/size verification of a blob or of the tar stream
+			case strings.Contains(msg, "failed to extract tar"):
+				sig = "restore-failed-extract" // extractTarDirectory rejected or could not create an entry
+			case strings.Contains(msg, "failed to restore duplicated file"):
+				sig = "restore-failed-duplicate"
+			}
+			fail(scid, sig, cerr.Error())
 			return
 		}
 	} else {
@@ -1310,6 +1394,16 @@ func tamperCases(ctx context.Context, sc *Scenario, scid, tail, work string, i i
 			nd.Size++
 		}
 		err := st.Push(ctx, nd, bytes.NewReader(blob))
+		if err == nil && v.tag == "good" && benign(it.Tree) {
+			// the direct route Add -> Push (no manifest, no copy): restored differently?
+			if got, serr := snapshot(filepath.Join(dir, name)); serr != nil {
+				run.OracleFail(scid, "snapshot", serr.Error(), sc)
+			} else {
+				run.Count("direct-push-compared")
+				compareTrees(scid, name, sc, expectTree(it.Tree, uint32(sc.Umask), sc.Preserve), got,
+					func(id, sig, msg string) { run.OracleFail(id, "direct-"+sig, msg, sc) })
+			}
+		}
 		st.Close()
 		res := "OK"
 		if err != nil {
@@ -1330,6 +1424,119 @@ func tamperCases(ctx context.Context, sc *Scenario, scid, tail, work string, i i
 		}
 		os.RemoveAll(dir)
 	}
+}
+
+// ---------- archives that tarDirectory would not write ----------
+
+type fent struct {
+	name, typ string // typ f d l
+	mode      uint32
+	data      []byte
+	target    string
+	hash      string
+}
+
+// walkEntries lists a tree the way tarDirectory does (pre-order, names sorted byte-wise).
+func walkEntries(n *Node, name string, out *[]fent) {
+	switch n.Kind {
+	case "f":
+		*out = append(*out, fent{name: name, typ: "f", mode: n.Mode, data: content(n.Seed, n.Len), hash: contentHash(n.Seed, n.Len)})
+	case "l":
+		*out = append(*out, fent{name: name, typ: "l", mode: 0o777, target: n.target()})
+	case "d":
+		*out = append(*out, fent{name: name, typ: "d", mode: n.Mode})
+		kids := append([]*Node{}, n.Children...)
+		sort.Slice(kids, func(i, j int) bool { return kids[i].name() < kids[j].name() })
+		for _, c := range kids {
+			walkEntries(c, name+"/"+c.name(), out)
+		}
+	}
+}
+
+// foreignCase pushes an archive of the directory whose entries are re-ordered, lack the root
+// entry or carry a second one, straight into a fresh file store, and records what was
+// extracted.  Correspondence only (the property speaks of archives written by Add): it ties the
+// model's handling of missing parents, of the base directory's recorded mode and of the
+// order-dependent link checks to extractTarDirectory beyond tarDirectory's own output.
+func foreignCase(ctx context.Context, sc *Scenario, tail, work string, it Item) {
+	name := filepath.ToSlash(filepath.Clean(unhx(it.Name)))
+	r := common.NewRand(sc.Foreign)
+	var es []fent
+	walkEntries(it.Tree, name, &es)
+	variant := r.Intn(6)
+	switch variant {
+	case 1: // no root entry
+		es = es[1:]
+	case 2: // root entry last
+		es = append(es[1:], es[0])
+	case 3: // a second root entry with another mode
+		es = append(es, fent{name: name, typ: "d", mode: common.Pick(r, dirModes)})
+	case 4: // any order
+		common.Shuffle(r, es)
+	case 5: // two neighbours swapped
+		if len(es) > 2 {
+			i := 1 + r.Intn(len(es)-2)
+			es[i], es[i+1] = es[i+1], es[i]
+		}
+	}
+	run.Count(fmt.Sprintf("foreign-variant=%d", variant))
+	var tarb bytes.Buffer
+	tw := tar.NewWriter(&tarb)
+	var toks []string
+	for _, e := range es {
+		h := &tar.Header{Name: e.name, Mode: int64(e.mode), ModTime: time.Unix(baseTime, 0)}
+		payload := "-"
+		switch e.typ {
+		case "f":
+			h.Typeflag, h.Size, payload = tar.TypeReg, int64(len(e.data)), e.hash
+		case "d":
+			h.Typeflag = tar.TypeDir
+		case "l":
+			h.Typeflag, h.Linkname, payload = tar.TypeSymlink, e.target, common.Hex(e.target)
+		}
+		if err := tw.WriteHeader(h); err != nil {
+			return // a name the tar writer refuses: nothing to compare
+		}
+		if e.typ == "f" {
+			tw.Write(e.data)
+		}
+		toks = append(toks, fmt.Sprintf("%s %s %d %s", relHex(e.name), e.typ, e.mode, payload))
+	}
+	tw.Close()
+	var gzb bytes.Buffer
+	zw := gzip.NewWriter(&gzb)
+	zw.Write(tarb.Bytes())
+	zw.Close()
+	blob := gzb.Bytes()
+	desc := ocispec.Descriptor{MediaType: ocispec.MediaTypeImageLayerGzip, Digest: digest.FromBytes(blob), Size: int64(len(blob)),
+		Annotations: map[string]string{ocispec.AnnotationTitle: unhx(it.Name), file.AnnotationUnpack: "true",
+			file.AnnotationDigest: string(digest.FromBytes(tarb.Bytes()))}}
+	dir := filepath.Join(work, "foreign")
+	os.MkdirAll(dir, 0o755)
+	defer os.RemoveAll(dir)
+	st, err := file.New(dir)
+	if err != nil {
+		panic(err)
+	}
+	st.PreservePermissions = sc.Preserve
+	perr := st.Push(ctx, desc, bytes.NewReader(blob))
+	st.Close()
+	id := run.NewID()
+	input := fmt.Sprintf("E %d %d %s %d %s%s", sc.Umask, b2i(sc.Preserve), nameComps(unhx(it.Name)), len(es), strings.Join(toks, " "), tail)
+	if perr != nil {
+		run.Case(id, input, strings.SplitN(errClass(perr), ":", 2)[0])
+		run.Count("foreign=" + strings.SplitN(errClass(perr), ":", 2)[0])
+		run.Nontrivial(input)
+		return
+	}
+	got, serr := snapshot(filepath.Join(dir, name))
+	if serr != nil {
+		run.OracleFail(id, "snapshot", serr.Error(), sc)
+		return
+	}
+	run.Case(id, input, "OK "+listing(got))
+	run.Count("foreign=OK")
+	run.Nontrivial(input)
 }
 
 // enumSmall runs every directory with at most two entries "a" and "b", each a file, a symlink
